@@ -70,7 +70,11 @@ pub fn apply_tla<H: BuildHasher>(args: &HashMap<IStr, TlaArg, H>, val: Val) -> R
 			|| {
 				let mut names = Vec::with_capacity(args.len());
 				let mut values = Vec::with_capacity(args.len());
-				for (name, value) in args {
+				// The map iterates in address-dependent order: visit arguments by name, so that
+				// the argument whose error is reported does not change from run to run.
+				let mut sorted: Vec<_> = args.iter().collect();
+				sorted.sort_unstable_by(|a, b| a.0.cmp(b.0));
+				for (name, value) in sorted {
 					names.push(name.clone());
 					values.push(value.evaluate()?);
 				}
